@@ -162,6 +162,7 @@ func runC10(c *Ctx) {
 		}
 	}
 
+	var builtBefore []string // patterns for which a strict call succeeded earlier in this case
 	for k := 0; k < 60 && !c.Violated(); k++ {
 		if k%9 == 8 {
 			// the table keeps changing between URL calls: a sibling that shares part of a segment splits nodes of live routes
@@ -174,11 +175,33 @@ func runC10(c *Ctx) {
 			}
 			c.Class("registration_between_url_calls")
 		}
+		if k%9 == 4 {
+			// ... and routes disappear between URL calls (by name, wholesale, through a facade): strict mode must notice
+			if live := s.LivePatterns(); len(live) > 0 {
+				p := ref.Pick(r, live)
+				switch r.Intn(3) {
+				case 0:
+					s.Remove(p, randomVia(r, p))
+				case 1:
+					var ms []string
+					for m := range s.Live[p].M {
+						ms = append(ms, m)
+					}
+					sort.Strings(ms)
+					s.Remove(p, Via{}, ms...)
+				default:
+					s.Remove(p, Via{Kind: 2})
+				}
+				c.Class("removal_between_url_calls")
+			}
+		}
 		// choose a pattern class
 		var pattern string
 		live := s.LivePatterns()
 		class := ""
 		switch x := r.Intn(10); {
+		case x < 1 && len(builtBefore) > 0:
+			pattern, class = ref.Pick(r, builtBefore), "built-successfully-before"
 		case x < 4 && len(live) > 0:
 			pattern, class = ref.Pick(r, live), "live"
 		case x < 6:
@@ -240,6 +263,9 @@ func runC10(c *Ctx) {
 		check("mux.URL", false, pattern, params, got, err, "", false)
 		got, err = s.R.URL(strict, pattern, params)
 		check("Router.URL", strict, pattern, params, got, err, wantDomain, true)
+		if strict && err == nil && len(builtBefore) < 30 {
+			builtBefore = append(builtBefore, pattern)
+		}
 		if len(pattern) > 0 {
 			cut := r.Intn(len(pattern) + 1)
 			got, err = s.R.Prefix(pattern[:cut]).URL(strict, pattern[cut:], params)
